@@ -231,7 +231,7 @@ def _cvc5(smt2):
 
 
 def check_function(prop, ob, name, module, qualname, post, pre=None, sym_len=None, sym_call=None, consts=None, stop_at=None,
-                   needed=(), validate=None, validate_real=None, validate_range=range(0, 300)):
+                   needed=(), validate=None, validate_real=None, validate_range=range(0, 300), entry=None):
     t0 = time.time()
     res = {'harness': '%s/%s:%s' % (prop, ob, name), 'ob': '%s/%s' % (prop, ob), 'params': {}, 'status': 'ok', 'violations': [],
            'paths': 1, 'decisions': 0, 'queries': 0, 'solver_time_s': 0.0, 'xval': 0, 'replayed': 0, 'asserts': 1, 'sample': None,
@@ -241,6 +241,8 @@ def check_function(prop, ob, name, module, qualname, post, pre=None, sym_len=Non
         tree = ast.parse(open(path).read())
         fn, cls = _find(tree, qualname)
         it = _Interp(sym_len, sym_call, consts, stop_at, cls)
+        for var, symname in (entry or {}).items():
+            it.env[var] = it.sym(symname)
         it.run(fn.body)
         v = {}
         for k, e in it.env.items():
